@@ -78,13 +78,54 @@ func NewValue(typ *meta.Type, v interface{}) (val.Value, error) {
 	case val.FmtUnionList:
 		return toUnionList(typ, v)
 	case val.FmtLeafRef, val.FmtLeafRefList:
-		return NewValue(typ.Resolve(), v)
+		// a leafref has the values of the leaf it points to; whether it holds one
+		// of them or a list of them is its own (leaf-list of references to a leaf,
+		// leaf referring to one entry of a leaf-list)
+		target := typ.Resolve()
+		if target.Format().IsList() != typ.Format().IsList() {
+			return newValueAs(target, typ.Format().IsList(), v)
+		}
+		return NewValue(target, v)
 	case val.FmtBitsList:
 		return toBitsList(typ.Bits(), v)
 	case val.FmtBits:
 		return toBits(typ.Bits(), v)
 	}
 	return val.Conv(typ.Format(), v)
+}
+
+// value of the type, as a list or as a single value whatever the type's own format says
+func newValueAs(typ *meta.Type, list bool, v interface{}) (val.Value, error) {
+	switch typ.Format().Single() {
+	case val.FmtLeafRef:
+		return newValueAs(typ.Resolve(), list, v)
+	case val.FmtIdentityRef:
+		if list {
+			return toIdentRefList(typ.Base(), v)
+		}
+		return toIdentRef(typ.Base(), v)
+	case val.FmtEnum:
+		if list {
+			return toEnumList(typ.Enum(), v)
+		}
+		return toEnum(typ.Enum(), v)
+	case val.FmtBits:
+		if list {
+			return toBitsList(typ.Bits(), v)
+		}
+		return toBits(typ.Bits(), v)
+	case val.FmtUnion:
+		for _, t := range typ.Union() {
+			if result, err := newValueAs(t, list, v); err == nil && result != nil {
+				return result, nil
+			}
+		}
+		return nil, fmt.Errorf("could not convert %v to any of the allowed types", v)
+	}
+	if list {
+		return val.Conv(typ.Format().Single().List(), v)
+	}
+	return val.Conv(typ.Format().Single(), v)
 }
 
 func toIdentRef(bases []*meta.Identity, v interface{}) (val.IdentRef, error) {
